@@ -22,37 +22,66 @@ Definition TR (s : vidx) (A : N) (b : nat) (v : hbs) : Prop :=
   (exists hi lo, seenb s A b hi /\ seenb s A b lo /\ seqv s hi = fst v /\ seqv s lo = snd v /\
                  forall z, seenb s A b z -> snd v <= seqv s z <= fst v).
 Definition HBok (s : vidx) (A : N) (b : nat) (v : hbs) : Prop :=
-  (is_fork v = true /\ SeesFork (evs s) A (crb s b)) \/
+  (is_fork v = true /\ (b < nbr s)%nat /\ SeesFork (evs s) A (crb s b)) \/
   (is_fork v = false /\ TR s A b v /\ (SeesFork (evs s) A (crb s b) -> forall x, ~ seenb s A b x)).
 Definition LAok (s : vidx) (B : N) (b : nat) (x : N) : Prop :=
   (x = 0 /\ forall z, ~ descb s B b z) \/
   (exists z, descb s B b z /\ seqv s z = x /\ forall z', descb s B b z' -> x <= seqv s z').
 
-Record vinv (n : nat) (s : vidx) : Prop := {
-  v_nvals : nvals s = n;
-  v_len : length (br_last s) = length (br_cr s);
-  v_nb : (n <= nbr s)%nat;
-  v_brcr_init : forall c, (c < n)%nat -> crb s c = c;
-  v_brcr_lt : forall b, (b < nbr s)%nat -> (crb s b < n)%nat;
-  v_bycr_len : length (by_cr s) = n;
-  v_bycr : forall c b, (c < n)%nat -> (In b (brs_of s c) <-> ((b < nbr s)%nat /\ crb s b = c));
-  v_bycr_nodup : forall c, NoDup (brs_of s c);
-  v_keys : forall x e, evt s x e ->
-    (exists hv, alookup x (hb s) = Some hv) /\ (exists lv, alookup x (la s) = Some lv) /\ (exists b, onbr s x b);
-  v_keys_la : forall x, alookup x (la s) = None <-> alookup x (evs s) = None;
-  v_closed : closed (evs s);
-  v_ev : forall x e, evt s x e -> (ecr e < n)%nat /\ 1 <= eseq e /\
+(* graph / branch part (I1): does not mention the vectors *)
+Record ginv (n : nat) (s : vidx) : Prop := {
+  g_nvals : nvals s = n;
+  g_len : length (br_last s) = length (br_cr s);
+  g_nb : (n <= nbr s)%nat;
+  g_brcr_init : forall c, (c < n)%nat -> crb s c = c;
+  g_brcr_lt : forall b, (b < nbr s)%nat -> (crb s b < n)%nat;
+  g_bycr_len : length (by_cr s) = n;
+  g_bycr : forall c b, (c < n)%nat -> (In b (brs_of s c) <-> ((b < nbr s)%nat /\ crb s b = c));
+  g_bycr_nodup : forall c, NoDup (brs_of s c);
+  g_keys : forall x e, evt s x e -> exists b, onbr s x b;
+  g_closed : closed (evs s);
+  g_ev : forall x e, evt s x e -> (ecr e < n)%nat /\ 1 <= eseq e /\
     match self_parent e with
     | Some sp => exists esp, evt s sp esp /\ ecr esp = ecr e /\ eseq e = eseq esp + 1
     | None => eseq e = 1 end;
-  v_br : forall x e b, evt s x e -> onbr s x b ->
+  g_br : forall x e b, evt s x e -> onbr s x b ->
     (b < nbr s)%nat /\ crb s b = ecr e /\ eseq e <= nth b (br_last s) 0;
-  v_chain : forall x e b, evt s x e -> onbr s x b ->
+  g_chain : forall x e b, evt s x e -> onbr s x b ->
     (exists sp esp, self_parent e = Some sp /\ onbr s sp b /\ evt s sp esp /\ eseq e = eseq esp + 1) \/
     (forall y ey, evt s y ey -> onbr s y b -> eseq e <= eseq ey);
-  v_inj : forall x y ex ey b, evt s x ex -> evt s y ey -> onbr s x b -> onbr s y b -> eseq ex = eseq ey -> x = y;
+  g_inj : forall x y ex ey b, evt s x ex -> evt s y ey -> onbr s x b -> onbr s y b -> eseq ex = eseq ey -> x = y }.
+
+(* full invariant: I1 + I2 (HighestBefore) + I3 (LowestAfter) *)
+Record vinv (n : nat) (s : vidx) : Prop := {
+  v_g : ginv n s;
+  v_keys_hbla : forall x e, evt s x e ->
+    (exists hv, alookup x (hb s) = Some hv) /\ (exists lv, alookup x (la s) = Some lv);
+  v_keys_la : forall x, alookup x (la s) = None <-> alookup x (evs s) = None;
   v_hb : forall A e av b, evt s A e -> alookup A (hb s) = Some av -> HBok s A b (hb_get av b);
   v_la : forall B e bv b, evt s B e -> alookup B (la s) = Some bv -> LAok s B b (la_get bv b) }.
+
+Section Compat.
+Variable n : nat. Variable s : vidx. Hypothesis I : vinv n s.
+Definition v_nvals := g_nvals n s (v_g n s I).
+Definition v_len := g_len n s (v_g n s I).
+Definition v_nb := g_nb n s (v_g n s I).
+Definition v_brcr_init := g_brcr_init n s (v_g n s I).
+Definition v_brcr_lt := g_brcr_lt n s (v_g n s I).
+Definition v_bycr_len := g_bycr_len n s (v_g n s I).
+Definition v_bycr := g_bycr n s (v_g n s I).
+Definition v_bycr_nodup := g_bycr_nodup n s (v_g n s I).
+Definition v_closed := g_closed n s (v_g n s I).
+Definition v_ev := g_ev n s (v_g n s I).
+Definition v_br := g_br n s (v_g n s I).
+Definition v_chain := g_chain n s (v_g n s I).
+Definition v_inj := g_inj n s (v_g n s I).
+Lemma v_keys x e : evt s x e ->
+  (exists hv, alookup x (hb s) = Some hv) /\ (exists lv, alookup x (la s) = Some lv) /\ (exists b, onbr s x b).
+Proof.
+  intros H. destruct (v_keys_hbla n s I x e H) as [A B]. split; [exact A|]. split; [exact B|].
+  exact (g_keys n s (v_g n s I) x e H).
+Qed.
+End Compat.
 
 Definition fc_cond (av : list hbs) (bv : list N) (br : nat) : bool :=
   (la_get bv br <=? fst (hb_get av br)) && negb (la_get bv br =? 0) && negb (is_fork (hb_get av br)).
@@ -66,10 +95,10 @@ Lemma fc_unfold ws q s a b : fc ws q s a b =
   | _, _, _ => false end.
 Proof. reflexivity. Qed.
 
-Section Consequences.
+Section GConsequences.
 Variable n : nat.
 Variable s : vidx.
-Hypothesis I : vinv n s.
+Hypothesis G : ginv n s.
 Let E := evs s.
 
 Lemma seqv_evt x e : evt s x e -> seqv s x = eseq e.
@@ -88,7 +117,7 @@ Lemma branch_contig : forall k hi ehi lo elo b sq,
 Proof.
   induction k as [|k IH]; intros hi ehi lo elo b sq Hhi Hlo Bhi Blo Hle Heq.
   - exists hi, ehi. repeat split; auto; [lia|]. eapply reach_refl; exact Hhi.
-  - destruct (v_chain n s I hi ehi b Hhi Bhi) as [(sp & esp & Hsp & Bsp & Esp & Hs)|Hmin].
+  - destruct (g_chain n s G hi ehi b Hhi Bhi) as [(sp & esp & Hsp & Bsp & Esp & Hs)|Hmin].
     + destruct (IH sp esp lo elo b sq Esp Hlo Bsp Blo Hle ltac:(lia)) as (z & ez & Hz & Bz & Sz & Rz).
       exists z, ez. repeat split; auto. eapply reach_step; [exact Hhi|apply self_parent_in; exact Hsp|exact Rz].
     + specialize (Hmin lo elo Hlo Blo). lia.
@@ -100,7 +129,7 @@ Proof.
   intros Hx Hy Bx By Hle.
   destruct (branch_contig (N.to_nat (eseq ey - eseq ex)) y ey x ex b (eseq ex) Hy Hx By Bx ltac:(lia) ltac:(lia))
     as (z & ez & Hz & Bz & Sz & Rz).
-  assert (z = x) by (eapply (v_inj n s I); eauto). subst. exact Rz.
+  assert (z = x) by (eapply (g_inj n s G); eauto). subst. exact Rz.
 Qed.
 
 (* a visible fork means two branches *)
@@ -109,10 +138,10 @@ Lemma fork_pair_branches v x y : fork_pair E v x y ->
      crb s bx = v /\ crb s by_ = v /\ eseq ex = eseq ey /\ (bx < nbr s)%nat /\ (by_ < nbr s)%nat.
 Proof.
   intros (Hne & ex & ey & Ex & Ey & Cx & Cy & Hs).
-  destruct (v_keys n s I x ex Ex) as (_ & _ & bx & Bx). destruct (v_keys n s I y ey Ey) as (_ & _ & by_ & By).
-  destruct (v_br n s I x ex bx Ex Bx) as (Lx & Crx & _). destruct (v_br n s I y ey by_ Ey By) as (Ly & Cry & _).
+  destruct (g_keys n s G x ex Ex) as (bx & Bx). destruct (g_keys n s G y ey Ey) as (by_ & By).
+  destruct (g_br n s G x ex bx Ex Bx) as (Lx & Crx & _). destruct (g_br n s G y ey by_ Ey By) as (Ly & Cry & _).
   exists ex, ey, bx, by_. repeat split; auto; try congruence.
-  intros ->. apply Hne. eapply (v_inj n s I); eauto.
+  intros ->. apply Hne. eapply (g_inj n s G); eauto.
 Qed.
 
 Lemma two_in_length {A} (a b : A) l : a <> b -> In a l -> In b l -> (2 <= length l)%nat.
@@ -130,20 +159,29 @@ Lemma SeesFork_two_branches A v : SeesFork E A v -> (v < n)%nat /\ (2 <= length 
 Proof.
   intros (x & y & Rx & Ry & Hf).
   destruct (fork_pair_branches v x y Hf) as (ex & ey & bx & by_ & Ex & Ey & Bx & By & Hne & Cx & Cy & Hs & Lx & Ly).
-  assert (Hv : (v < n)%nat) by (rewrite <- Cx; apply (v_brcr_lt n s I); exact Lx).
+  assert (Hv : (v < n)%nat) by (rewrite <- Cx; apply (g_brcr_lt n s G); exact Lx).
   assert (H2 : (2 <= length (brs_of s v))%nat).
-  { apply (two_in_length bx by_); auto; apply (v_bycr n s I); auto. }
+  { apply (two_in_length bx by_); auto; apply (g_bycr n s G); auto. }
   repeat split; auto.
-  unfold at_least_one_fork. rewrite (v_nvals n s I). apply Nat.ltb_lt.
+  unfold at_least_one_fork. rewrite (g_nvals n s G). apply Nat.ltb_lt.
   (* if nbr = n, every creator has at most one branch *)
   destruct (Nat.lt_ge_cases n (nbr s)) as [|Hge]; [assumption|exfalso].
-  pose proof (v_nb n s I) as Hnb. assert (Hnn : nbr s = n) by lia.
+  pose proof (g_nb n s G) as Hnb. assert (Hnn : nbr s = n) by lia.
   assert (forall b c, (c < n)%nat -> In b (brs_of s c) -> b = c).
-  { intros b c Hc Hb. apply (v_bycr n s I) in Hb; [|exact Hc]. destruct Hb as [Hb Hcb].
-    rewrite (v_brcr_init n s I) in Hcb by lia. exact Hcb. }
-  assert (bx = v) by (apply H; auto; apply (v_bycr n s I); auto).
-  assert (by_ = v) by (apply H; auto; apply (v_bycr n s I); auto). congruence.
+  { intros b c Hc Hb. apply (g_bycr n s G) in Hb; [|exact Hc]. destruct Hb as [Hb Hcb].
+    rewrite (g_brcr_init n s G) in Hcb by lia. exact Hcb. }
+  assert (bx = v) by (apply H; auto; apply (g_bycr n s G); auto).
+  assert (by_ = v) by (apply H; auto; apply (g_bycr n s G); auto). congruence.
 Qed.
+
+End GConsequences.
+
+Section Consequences.
+Variable n : nat.
+Variable s : vidx.
+Hypothesis I : vinv n s.
+Let E := evs s.
+Let G := v_g n s I.
 
 (* ---------- an unmarked entry whose maximum reaches the lowest descendant of B witnesses "between" ---------- *)
 Lemma seenb_evt A b x : seenb s A b x -> exists ex, evt s x ex.
@@ -163,19 +201,19 @@ Proof.
     destruct Htr as [[Hnone Hfst]|(hi & lo & [Rhi Bhi] & _ & Shi & _ & _)].
     + lia.
     + destruct (reach_in_l _ _ _ Rz) as [ez Ez]. destruct (reach_in_r _ _ _ Rhi) as [ehi Ehi].
-      rewrite (seqv_evt z ez Ez) in Sz. rewrite (seqv_evt hi ehi Ehi) in Shi.
-      assert (Rhz : reach E hi z) by (eapply (branch_chain z ez hi ehi br); eauto; lia).
+      rewrite (seqv_evt s z ez Ez) in Sz. rewrite (seqv_evt s hi ehi Ehi) in Shi.
+      assert (Rhz : reach E hi z) by (eapply (branch_chain n s G z ez hi ehi br); eauto; lia).
       exists hi, ehi. repeat split; auto.
       * eapply reach_trans; eauto.
       * intros HS. eapply (Hcompl HS hi). split; eauto.
   - intros (x & ex & Rx & Ex & Bx & Rxb & Hns).
-    destruct HB as [[_ HS]|(Hnf & Htr & _)]; [contradiction|].
+    destruct HB as [(_ & _ & HS)|(Hnf & Htr & _)]; [contradiction|].
     assert (Sx : seenb s a br x) by (split; auto).
     assert (Dx : descb s b br x) by (split; auto).
     destruct LA as [[_ Hnone]|(z & Dz & Sz & Hmin)]; [exfalso; eapply Hnone; eauto|].
     destruct Htr as [[Hnone _]|(hi & lo & _ & _ & _ & _ & Hrng)]; [exfalso; eapply Hnone; eauto|].
     specialize (Hrng x Sx). specialize (Hmin x Dx).
-    destruct Dz as [Rz Bz]. destruct (reach_in_l _ _ _ Rz) as [ez Ez]. rewrite (seqv_evt z ez Ez) in Sz.
+    destruct Dz as [Rz Bz]. destruct (reach_in_l _ _ _ Rz) as [ez Ez]. rewrite (seqv_evt s z ez Ez) in Sz.
     pose proof (v_ev n s I z ez Ez) as (_ & Hz1 & _).
     repeat split; auto; lia.
 Qed.
@@ -251,12 +289,12 @@ Proof.
   destruct (at_least_one_fork s && is_fork (hb_get av bbr)) eqn:Hchk.
   - (* B's creator is seen forking *)
     apply andb_true_iff in Hchk. destruct Hchk as [_ Hf].
-    destruct HB as [[_ HS]|[Hnf _]]; [|congruence].
+    destruct HB as [(_ & _ & HS)|[Hnf _]]; [|congruence].
     apply sees_fork_anc in HS. fold E in HS. rewrite HS. reflexivity.
   - destruct (sees_fork E (anc E a) (ecr eb)) eqn:HS; cbn [negb andb]; [|reflexivity].
     apply sees_fork_anc in HS.
     destruct HB as [[Hf _]|(_ & _ & Hcompl)].
-    + destruct (SeesFork_two_branches a (ecr eb) HS) as (_ & _ & Halof). rewrite Halof, Hf in Hchk. discriminate.
+    + destruct (SeesFork_two_branches n s G a (ecr eb) HS) as (_ & _ & Halof). rewrite Halof, Hf in Hchk. discriminate.
     + (* branch of b invisible from a: nothing is between *)
       replace specl with (repeat false n).
       * rewrite wsum_repeat_false. destruct (N.leb_spec q 0); [lia|reflexivity].
